@@ -92,18 +92,28 @@ Proof. unfold wnames, comp_state, st_structs. cbn [w_env w_strands w_structs]. r
   - apply in_map_iff in H. destruct H as [[m u] [E _]]. simpl in E. subst n. eauto. Qed.
 
 (* a port of the right (non-zero) length resolves, starred or not, to nucleotides of that length *)
+(* the nucleotides of the sequence a port names (read forward, whatever star the port carries) *)
+Definition named_nts (c : comp) (x : ref) : list nt :=
+  match x with
+  | RB m _ => dom_nts (c_prefix c +++ m) (base_len (c_bases c) m)
+  | RS m _ => match afind (c_sups c) m with Some s => flatB c (s_base s) | None => [] end
+  end.
+Definition orient (wc : bool) (v : list nt) : list nt := if wc then rc v else v.
+Lemma orient_length wc v : List.length (orient wc v) = List.length v.
+Proof. destruct wc; [apply rc_length | reflexivity]. Qed.
+
 Lemma port_resolves c x (wc : bool) n : WF c -> List.length (flatB c (ref_base c x)) = n -> n <> 0 ->
   (forall y, In y (ref_base c x) -> ahas (c_bases c) (fst y) = true) ->
   match x with RB m _ => True | RS m _ => ahas (c_sups c) m = true end ->
-  exists v, resolve_items (final_env c) [(fst (ref_name c x), wc)] = Some v /\ List.length v = n.
+  resolve_items (final_env c) [(fst (ref_name c x), wc)] = Some (orient wc (named_nts c x)) /\ List.length (named_nts c x) = n.
 Proof. intros W L NZ DECL HS. destruct x as [m r|m r]; cbn [ref_name fst ref_base] in *.
   - pose proof (DECL (m, r) (or_introl eq_refl)) as A. cbn [fst] in A. unfold ahas in A. destruct (afind (c_bases c) m) as [b|] eqn:AB; [|discriminate].
     pose proof (afind_Some_In _ _ _ AB) as Hin. unfold flatB in L. simpl in L. rewrite app_nil_r, flat_bref_length in L. cbn [fst] in L. unfold base_len in L. rewrite AB in L.
-    cbn [resolve_items]. rewrite (emit_named_base c W m b Hin ltac:(lia)). eexists. split; [reflexivity|]. rewrite app_nil_r. destruct wc; [rewrite rc_length|]; rewrite dom_nts_length; exact L.
+    cbn [resolve_items named_nts]. rewrite (emit_named_base c W m b Hin ltac:(lia)), app_nil_r. unfold base_len. rewrite AB. split; [reflexivity | rewrite dom_nts_length; exact L].
   - unfold ahas in HS. destruct (afind (c_sups c) m) as [s|] eqn:AS; [|discriminate]. pose proof (afind_Some_In _ _ _ AS) as Hin.
     assert (LS : List.length (flatB c (s_base s)) = n) by (destruct r; [rewrite flatB_rc, rc_length in L|]; exact L).
     destruct (in_split _ _ Hin) as [pre [post E]]. pose proof (so_len c pre s (wf_sups c W pre m s post E)) as SL.
-    cbn [resolve_items]. rewrite (emit_named_sup c W m s Hin ltac:(lia)). eexists. split; [reflexivity|]. rewrite app_nil_r. destruct wc; [rewrite rc_length|]; exact LS. Qed.
+    cbn [resolve_items named_nts]. rewrite (emit_named_sup c W m s Hin ltac:(lia)), app_nil_r, AS. split; [reflexivity | exact LS]. Qed.
 
 (* ---- a nested system ---- *)
 Fixpoint names_ok (fuel : nat) (o : obj) : Prop :=
@@ -118,13 +128,42 @@ Fixpoint names_ok (fuel : nat) (o : obj) : Prop :=
   end.
 
 Definition env_incl (a b : penv) : Prop := forall k v, afind a k = Some v -> afind b k = Some v.
-Definition exports (p : string) (o : obj) (d : wstate) : Prop :=
+(* the nucleotides of what a binding names: a sequence of a component instance, or the signal sequence of a sub-system *)
+Definition port_named (p : string) (comps : list (string * obj)) (l : loc) (cname : string) : list nt :=
+  match l with
+  | LRef x => match afind comps cname with Some (OComp c) => named_nts c x | _ => [] end
+  | LSig s0 => match afind comps cname with
+               | Some (OSys _ _ _ lens' _ _) => dom_nts (p +++ cname +++ "-" +++ s0) (lens_of lens' s0)
+               | _ => [] end
+  end.
+(* in environment env, at every depth: a signal is a sequence of its recorded length, and every item of its `equal` line
+   resolves to the nucleotides the binding names, reverse-complemented exactly when the binding is (effectively) starred *)
+Fixpoint all_equal_ok (f : nat) (o : obj) (env : penv) : Prop :=
+  match f with
+  | O => True
+  | S f' =>
+      match o with
+      | OComp _ => True
+      | OSys q comps sigs lens _ _ =>
+          (forall cn sub, In (cn, sub) comps -> all_equal_ok f' sub env) /\
+          (forall s e, In (s, e) sigs -> afind env (q +++ s) = Some (dom_nts (q +++ s) (lens_of lens s)) /\
+             forall l cname wc, In (l, cname, wc) e ->
+               resolve_items env [(loc_name q comps l cname, wc)] = Some (orient wc (port_named q comps l cname)) /\
+               List.length (port_named q comps l cname) = lens_of lens s)
+      end
+  end.
+Lemma all_equal_ok_incl : forall f o a b, env_incl a b -> all_equal_ok f o a -> all_equal_ok f o b.
+Proof. induction f as [|f IH]; intros o a b INC H; [exact I|]. destruct o as [c|q comps sigs lens i oo]; [exact I|]. cbn [all_equal_ok] in *. destruct H as [H1 H2]. split.
+  - intros cn sub Hin. apply (IH sub a b INC (H1 cn sub Hin)).
+  - intros s e Hin. destruct (H2 s e Hin) as [A B]. split; [apply INC, A|]. intros l cname wc He. destruct (B l cname wc He) as [R L]. split; [apply (resolve_mono _ _ _ INC _ R) | exact L]. Qed.
+
+Definition exports (f : nat) (p : string) (o : obj) (d : wstate) : Prop :=
   match o with
   | OComp c => env_incl (final_env c) (w_env d)
   | OSys _ _ sigs lens _ _ => forall s e, In (s, e) sigs -> afind (w_env d) (p +++ s) = Some (dom_nts (p +++ s) (lens_of lens s))
-  end.
-Lemma exports_incl p o d d' : env_incl (w_env d) (w_env d') -> exports p o d -> exports p o d'.
-Proof. intros I E. destruct o as [c|pr comps sigs lens i oo]; simpl in *; [intros k v A; apply I, E, A | intros s e H; apply I, (E s e H)]. Qed.
+  end /\ all_equal_ok f o (w_env d).
+Lemma exports_incl f p o d d' : env_incl (w_env d) (w_env d') -> exports f p o d -> exports f p o d'.
+Proof. intros INC [E Q]. split; [|apply (all_equal_ok_incl f o _ _ INC Q)]. destruct o as [c|pr comps sigs lens i oo]; simpl in *; [intros k v A; apply INC, E, A | intros s e H; apply INC, (E s e H)]. Qed.
 Lemma wmerge_w0 w : wmerge w w0 = w.
 Proof. destruct w. unfold wmerge. simpl. rewrite !app_nil_r. reflexivity. Qed.
 Lemma wnames_merge a b n : In n (wnames (wmerge a b)) <-> In n (wnames a) \/ In n (wnames b).
@@ -146,16 +185,16 @@ Hypothesis DASHS : forall s e, In (s, e) sigs -> no_dash s.
 Hypothesis WPC : forall cn sub, In (cn, sub) comps -> wp (p +++ cn +++ "-") sub.
 (* what the induction over the nesting provides for every instance *)
 Hypothesis SUBRUN : forall cn sub, In (cn, sub) comps ->
-  exists d, wf_run (emit_obj f sub) w0 = Some d /\ (forall n, In n (wnames d) -> exists m, n = (p +++ cn +++ "-") +++ m) /\ exports (p +++ cn +++ "-") sub d.
+  exists d, wf_run (emit_obj f sub) w0 = Some d /\ (forall n, In n (wnames d) -> exists m, n = (p +++ cn +++ "-") +++ m) /\ exports f (p +++ cn +++ "-") sub d.
 
 Definition inst_name (names : list string) (n : string) : Prop := exists cn m, In cn names /\ n = (p +++ cn +++ "-") +++ m.
 
 Lemma comps_run : forall rest done acc, comps = done ++ rest ->
   (forall n, In n (wnames acc) -> inst_name (map fst done) n) ->
-  (forall cn sub, In (cn, sub) done -> exports (p +++ cn +++ "-") sub acc) ->
+  (forall cn sub, In (cn, sub) done -> exports f (p +++ cn +++ "-") sub acc) ->
   exists acc', wf_run (flat_map (fun '(_, sub) => emit_obj f sub) rest) acc = Some acc' /\
     (forall n, In n (wnames acc') -> inst_name (map fst comps) n) /\
-    (forall cn sub, In (cn, sub) comps -> exports (p +++ cn +++ "-") sub acc').
+    (forall cn sub, In (cn, sub) comps -> exports f (p +++ cn +++ "-") sub acc').
 Proof. induction rest as [|[cn sub] rest IH]; intros done acc E NA EX.
   - rewrite app_nil_r in E. subst done. exists acc. split; [reflexivity | split; assumption].
   - assert (Hin : In (cn, sub) comps) by (rewrite E; apply in_or_app; right; left; reflexivity).
@@ -177,8 +216,8 @@ Proof. induction rest as [|[cn sub] rest IH]; intros done acc E NA EX.
       * destruct (NA n Hn) as [c1 [m1 [H1 E1]]]. exists c1, m1. split; [apply in_or_app; left; exact H1 | exact E1].
       * destruct (ND n Hn) as [m ->]. exists cn, m. split; [apply in_or_app; right; left; reflexivity | reflexivity].
     + intros c1 s1 H1. apply in_app_or in H1. destruct H1 as [H1|[Q|[]]].
-      * apply (exports_incl _ _ acc); [|apply (EX c1 s1 H1)]. intros k v A. cbn [wmerge w_env]. apply afind_app_l, A.
-      * inversion Q; subst c1 s1. apply (exports_incl _ _ d); [|exact EXD]. intros k v A. cbn [wmerge w_env]. rewrite afind_skip; [exact A|].
+      * apply (exports_incl _ _ _ acc); [|apply (EX c1 s1 H1)]. intros k v A. cbn [wmerge w_env]. apply afind_app_l, A.
+      * inversion Q; subst c1 s1. apply (exports_incl _ _ _ d); [|exact EXD]. intros k v A. cbn [wmerge w_env]. rewrite afind_skip; [exact A|].
         intros C. destruct (ND k (afind_in_names d k v A)) as [m ->]. apply (FRESH _ ltac:(unfold wnames; apply in_or_app; left; exact C) m eq_refl). Qed.
 End OneLevel.
 
@@ -207,28 +246,32 @@ Definition sig_plines (se : string * list (loc * string * bool)) : list pline :=
 Definition st_name (done : list string) (n : string) : Prop := inst_name p (map fst comps) n \/ exists s, In s done /\ n = p +++ s.
 
 Lemma entry_resolves st sname entries l cname wc : In (sname, entries) sigs -> In (l, cname, wc) entries ->
-  (forall cn sub, In (cn, sub) comps -> exports (p +++ cn +++ "-") sub st) ->
-  exists v, resolve_items (w_env st) [(loc_name p comps l cname, wc)] = Some v /\ List.length v = lens_of lens sname.
-Proof. intros Hs He EX. pose proof (ENT sname entries Hs l cname wc He) as EW. pose proof (LENZ sname entries Hs) as NZ. destruct l as [x|s0]; cbn [loc_name].
+  (forall cn sub, In (cn, sub) comps -> exports f (p +++ cn +++ "-") sub st) ->
+  resolve_items (w_env st) [(loc_name p comps l cname, wc)] = Some (orient wc (port_named p comps l cname)) /\ List.length (port_named p comps l cname) = lens_of lens sname.
+Proof. intros Hs He EX. pose proof (ENT sname entries Hs l cname wc He) as EW. pose proof (LENZ sname entries Hs) as NZ. destruct l as [x|s0]; cbn [loc_name port_named].
   - destruct EW as [c [AC [L [DECL NZB]]]]. rewrite AC. pose proof (afind_Some_In _ _ _ AC) as Hin.
     assert (HS : match x with RB m _ => True | RS m _ => ahas (c_sups c) m = true end).
     { destruct x as [m r|m r]; [exact I|]. unfold ahas. cbn [ref_base] in L. destruct (afind (c_sups c) m); [reflexivity|]. simpl in L. congruence. }
-    destruct (port_resolves c x wc _ (WFC cname c Hin) L NZ DECL HS) as [v [R Lv]]. exists v. split; [|exact Lv].
-    apply (resolve_mono _ _ _ (EX cname (OComp c) Hin) _ R).
+    destruct (port_resolves c x wc _ (WFC cname c Hin) L NZ DECL HS) as [R Lv]. split; [|exact Lv].
+    apply (resolve_mono _ _ _ (proj1 (EX cname (OComp c) Hin)) _ R).
   - destruct EW as [comps' [sigs' [lens' [i' [o' [AC [HS L]]]]]]]. pose proof (afind_Some_In _ _ _ AC) as Hin.
-    pose proof (EX cname _ Hin) as E. cbn [exports] in E. unfold ahas in HS. destruct (afind sigs' s0) as [e0|] eqn:A0; [|discriminate]. apply afind_Some_In in A0.
-    pose proof (E s0 e0 A0) as F. rewrite append_assoc4 in F. cbn [resolve_items]. rewrite F. eexists. split; [reflexivity|].
-    rewrite app_nil_r. destruct wc; [rewrite rc_length|]; rewrite dom_nts_length; exact L. Qed.
+    pose proof (proj1 (EX cname _ Hin)) as E. cbn beta iota in E. unfold ahas in HS. destruct (afind sigs' s0) as [e0|] eqn:A0; [|discriminate]. apply afind_Some_In in A0.
+    pose proof (E s0 e0 A0) as F. rewrite append_assoc4 in F. cbn [resolve_items]. rewrite AC, F, app_nil_r. split; [reflexivity|].
+    rewrite dom_nts_length; exact L. Qed.
 
 Lemma sigs_run : forall rest done st, sigs = done ++ rest ->
   (forall n, In n (wnames st) -> st_name (map fst done) n) ->
-  (forall cn sub, In (cn, sub) comps -> exports (p +++ cn +++ "-") sub st) ->
-  (forall s e, In (s, e) done -> afind (w_env st) (p +++ s) = Some (dom_nts (p +++ s) (lens_of lens s))) ->
+  (forall cn sub, In (cn, sub) comps -> exports f (p +++ cn +++ "-") sub st) ->
+  (forall s e, In (s, e) done -> afind (w_env st) (p +++ s) = Some (dom_nts (p +++ s) (lens_of lens s)) /\
+     forall l cname wc, In (l, cname, wc) e ->
+       resolve_items (w_env st) [(loc_name p comps l cname, wc)] = Some (orient wc (port_named p comps l cname)) /\ List.length (port_named p comps l cname) = lens_of lens s) ->
   exists st', wf_run (flat_map sig_plines rest) st = Some st' /\
-    (forall n, In n (wnames st') -> st_name (map fst sigs) n) /\
-    (forall s e, In (s, e) sigs -> afind (w_env st') (p +++ s) = Some (dom_nts (p +++ s) (lens_of lens s))).
+    (forall n, In n (wnames st') -> st_name (map fst sigs) n) /\ env_incl (w_env st) (w_env st') /\
+    (forall s e, In (s, e) sigs -> afind (w_env st') (p +++ s) = Some (dom_nts (p +++ s) (lens_of lens s)) /\
+       forall l cname wc, In (l, cname, wc) e ->
+         resolve_items (w_env st') [(loc_name p comps l cname, wc)] = Some (orient wc (port_named p comps l cname)) /\ List.length (port_named p comps l cname) = lens_of lens s).
 Proof. induction rest as [|[sname entries] rest IH]; intros done st E NA EX SG.
-  - rewrite app_nil_r in E. subst done. exists st. split; [reflexivity | split; assumption].
+  - rewrite app_nil_r in E. subst done. exists st. split; [reflexivity | split; [assumption | split; [intros k v A; exact A | assumption]]].
   - assert (Hs : In (sname, entries) sigs) by (rewrite E; apply in_or_app; right; left; reflexivity).
     assert (NIN : ~ In sname (map fst done)).
     { rewrite E, map_app in NDS. simpl in NDS. intros C. apply (NoDup_app_disj' _ _ NDS sname C). left. reflexivity. }
@@ -251,31 +294,34 @@ Proof. induction rest as [|[sname entries] rest IH]; intros done st E NA EX SG.
     { apply forallb_forall. intros i [<-|Hi].
       - rewrite R0. apply Nat.eqb_refl.
       - apply in_map_iff in Hi. destruct Hi as [[[l cname] wc] [<- He]].
-        destruct (entry_resolves st sname entries l cname wc Hs He EX) as [v [R Lv]].
-        rewrite (resolve_mono _ _ _ INC _ R), Lv, dom_nts_length. apply Nat.eqb_refl. }
+        destruct (entry_resolves st sname entries l cname wc Hs He EX) as [R Lv].
+        rewrite (resolve_mono _ _ _ INC _ R), orient_length, Lv, dom_nts_length. apply Nat.eqb_refl. }
     rewrite ALL.
-    destruct (IH (done ++ [(sname, entries)]) st1) as [st' [RUN [NA' SG']]].
+    destruct (IH (done ++ [(sname, entries)]) st1) as [st' [RUN [NA' [INC' SG']]]].
     + rewrite <- app_assoc. exact E.
     + intros n Hn. unfold wnames in Hn. cbn [st1 w_env w_strands w_structs] in Hn. rewrite map_app, !in_app_iff in Hn. rewrite map_app.
       destruct Hn as [[Hn|[<-|[]]]|Hn].
       * destruct (NA n ltac:(unfold wnames; rewrite !in_app_iff; left; exact Hn)) as [I1|[s [Hd Es]]]; [left; exact I1 | right; exists s; split; [apply in_or_app; left; exact Hd | exact Es]].
       * right. exists sname. split; [apply in_or_app; right; left; reflexivity | reflexivity].
       * destruct (NA n ltac:(unfold wnames; rewrite !in_app_iff; right; exact Hn)) as [I1|[s [Hd Es]]]; [left; exact I1 | right; exists s; split; [apply in_or_app; left; exact Hd | exact Es]].
-    + intros cn sub Hin. apply (exports_incl _ _ st _ INC (EX cn sub Hin)).
-    + intros s e Hse. apply in_app_or in Hse. destruct Hse as [Hse|[Q|[]]]; [apply INC, (SG s e Hse)|]. inversion Q; subst s e. exact ASG.
-    + exists st'. split; [exact RUN | split; assumption]. Qed.
+    + intros cn sub Hin. apply (exports_incl _ _ _ st _ INC (EX cn sub Hin)).
+    + intros s e Hse. apply in_app_or in Hse. destruct Hse as [Hse|[Q|[]]].
+      * destruct (SG s e Hse) as [A B]. split; [apply INC, A|]. intros l cname wc He. destruct (B l cname wc He) as [R L]. split; [apply (resolve_mono _ _ _ INC _ R) | exact L].
+      * inversion Q; subst s e. split; [exact ASG|]. intros l cname wc He. destruct (entry_resolves st sname entries l cname wc Hs He EX) as [R L].
+        split; [apply (resolve_mono _ _ _ INC _ R) | exact L].
+    + exists st'. split; [exact RUN | split; [exact NA' | split; [intros k v A; apply INC', INC, A | exact SG']]]. Qed.
 End Signals.
 
 Theorem sys_run : forall f o p, sys_wf f o -> deep_ok f o -> wp p o -> names_ok f o ->
-  exists d, wf_run (emit_obj f o) w0 = Some d /\ (forall n, In n (wnames d) -> exists m, n = p +++ m) /\ exports p o d.
+  exists d, wf_run (emit_obj f o) w0 = Some d /\ (forall n, In n (wnames d) -> exists m, n = p +++ m) /\ exports f p o d.
 Proof. induction f as [|f IH]; intros o p W D WP N; [destruct W|]. destruct o as [c|pr comps sigs lens i oo].
   - cbn [sys_wf] in W. destruct W as [W W2]. simpl in WP. exists (comp_state c). split; [apply (comp_run c W W2)|]. split.
     + intros n Hn. destruct (comp_state_names c n Hn) as [m ->]. rewrite WP. eauto.
-    + simpl. intros k v A. exact A.
+    + split; [simpl; intros k v A; exact A | exact I].
   - apply wp_sys in WP. destruct WP as [-> [SO WA]]. cbn [sys_wf] in W. destruct W as [NDC [WFS WFE]].
     cbn [deep_ok] in D. destruct D as [SS [LN [NDS DS]]]. cbn [names_ok] in N. destruct N as [NC NSg].
     assert (SUBRUN : forall cn sub, In (cn, sub) comps ->
-      exists d, wf_run (emit_obj f sub) w0 = Some d /\ (forall n, In n (wnames d) -> exists m, n = (p +++ cn +++ "-") +++ m) /\ exports (p +++ cn +++ "-") sub d).
+      exists d, wf_run (emit_obj f sub) w0 = Some d /\ (forall n, In n (wnames d) -> exists m, n = (p +++ cn +++ "-") +++ m) /\ exports f (p +++ cn +++ "-") sub d).
     { intros cn sub Hin. apply (IH sub (p +++ cn +++ "-") (WFS cn sub Hin) (DS cn sub Hin) (WA cn sub Hin) (proj2 (NC cn sub Hin))). }
     destruct (comps_run f p comps NDC (fun cn sub H => proj1 (NC cn sub H)) WA SUBRUN comps [] w0 eq_refl (fun n (H : In n (wnames w0)) => match H with end) (fun cn sub (H : In (cn, sub) []) => match H with end))
       as [acc [RA [NA EX]]].
@@ -283,13 +329,14 @@ Proof. induction f as [|f IH]; intros o p W D WP N; [destruct W|]. destruct o as
     { intros cn c Hin. pose proof (WFS cn _ Hin) as X. destruct f as [|f']; [destruct X | cbn [sys_wf] in X; apply X]. }
     assert (LENZ : forall s e, In (s, e) sigs -> lens_of lens s <> 0).
     { intros s e Hin. destruct (LN s e Hin) as [len A]. unfold lens_of. rewrite A. apply (SS s len A). }
-    destruct (sigs_run p comps sigs lens NDS NSg WFC LENZ WFE sigs [] acc eq_refl (fun n Hn => or_introl (NA n Hn)) EX (fun s e (H : In (s, e) []) => match H with end))
-      as [st [RS [NS SG]]].
+    destruct (sigs_run f p comps sigs lens NDS NSg WFC LENZ WFE sigs [] acc eq_refl (fun n Hn => or_introl (NA n Hn)) EX (fun s e (H : In (s, e) []) => match H with end))
+      as [st [RS [NS [INC SG]]]].
     exists st. split; [|split].
     + change (emit_obj (S f) (OSys p comps sigs lens i oo)) with (flat_map (fun '(_, sub) => emit_obj f sub) comps ++ flat_map (sig_plines p comps lens) sigs).
       rewrite wf_run_app, RA. exact RS.
     + intros n Hn. destruct (NS n Hn) as [[cn [m [_ ->]]]|[s [_ ->]]]; [|eauto]. exists (cn +++ "-" +++ m). rewrite !append_assoc3. reflexivity.
-    + exact SG. Qed.
+    + split; [intros s e Hin; apply (SG s e Hin)|]. cbn [all_equal_ok]. split; [|exact SG].
+      intros cn sub Hin. apply (all_equal_ok_incl f sub _ _ INC (proj2 (EX cn sub Hin))). Qed.
 
 (* ---- whatever load_file accepts ---- *)
 Theorem loaded_system_wf_pil fs includes ctr b args o ctr' : load_file fs includes 12 ctr b args "" "." = OK (o, ctr') ->
@@ -315,3 +362,36 @@ Proof. induction f as [|f IH]; intros o H; [exact I|]. destruct o as [c|pr comps
   apply andb_prop in H. destruct H as [H1 H2]. rewrite forallb_forall in H1, H2. split.
   - intros cn sub Hin. specialize (H1 (cn, sub) Hin). cbn [fst snd] in H1. apply andb_prop in H1. destruct H1 as [A B]. split; [apply no_dashb_sound, A | apply IH, B].
   - intros s e Hin. apply no_dashb_sound. apply (H2 (s, e) Hin). Qed.
+
+(* ---- C02, the signal clause as a statement about the emitted document ---- *)
+Theorem loaded_system_equal_lines fs includes ctr b args o ctr' : load_file fs includes 12 ctr b args "" "." = OK (o, ctr') -> names_ok 12 o ->
+  exists d, wf_run (emit_obj 12 o) w0 = Some d /\ all_equal_ok 12 o (w_env d).
+Proof. intros L N. destruct (load_file_sys_wf fs includes 12 _ _ _ _ _ _ _ L) as [W [D _]].
+  destruct (sys_run 12 o "" W D (load_file_wp fs includes 12 _ _ _ _ _ _ _ L) N) as [d [R [_ [_ Q]]]]. exists d. split; [exact R | exact Q]. Qed.
+
+(* what an `equal` line says: every further item denotes, nucleotide by nucleotide, the same bases as the first *)
+Definition equal_holds (v : valuation) (env : penv) (items : list (string * bool)) : Prop :=
+  match items with
+  | [] => True
+  | i0 :: rest => forall i, In i rest -> exists a b, resolve_items env [i0] = Some a /\ resolve_items env [i] = Some b /\ seqval v b = seqval v a
+  end.
+
+(* for a signal whose line resolves as all_equal_ok says: the line holds exactly when every bound port reads the signal,
+   or its reverse complement when the binding is (effectively) starred *)
+Theorem equal_line_meaning v env q comps lens s entries :
+  afind env (q +++ s) = Some (dom_nts (q +++ s) (lens_of lens s)) ->
+  (forall l cname wc, In (l, cname, wc) entries ->
+     resolve_items env [(loc_name q comps l cname, wc)] = Some (orient wc (port_named q comps l cname)) /\
+     List.length (port_named q comps l cname) = lens_of lens s) ->
+  (equal_holds v env ((q +++ s, false) :: map (fun '(l, cname, wc) => (loc_name q comps l cname, wc)) entries) <->
+   forall l cname wc, In (l, cname, wc) entries ->
+     seqval v (port_named q comps l cname) = if wc then rcb (seqval v (dom_nts (q +++ s) (lens_of lens s))) else seqval v (dom_nts (q +++ s) (lens_of lens s))).
+Proof. intros A E. set (sg := dom_nts (q +++ s) (lens_of lens s)) in *.
+  assert (R0 : resolve_items env [(q +++ s, false)] = Some sg) by (cbn [resolve_items]; rewrite A, app_nil_r; reflexivity).
+  unfold equal_holds. split.
+  - intros H l cname wc He. destruct (H (loc_name q comps l cname, wc)) as [a [b [Ra [Rb EQ]]]].
+    { apply in_map_iff. exists (l, cname, wc). auto. }
+    rewrite R0 in Ra. inversion Ra; subst a. rewrite (proj1 (E l cname wc He)) in Rb. inversion Rb; subst b.
+    destruct wc; cbn [orient] in EQ; [|exact EQ]. rewrite seqval_rc in EQ. rewrite <- EQ, rcb_invol. reflexivity.
+  - intros H i Hi. apply in_map_iff in Hi. destruct Hi as [[[l cname] wc] [<- He]]. exists sg, (orient wc (port_named q comps l cname)).
+    split; [exact R0 | split; [apply (E l cname wc He)|]]. specialize (H l cname wc He). destruct wc; cbn [orient]; [|exact H]. rewrite seqval_rc, H, rcb_invol. reflexivity. Qed.
